@@ -125,6 +125,7 @@ func checkC09(p *core.Program, r *core.Report) {
 	r.Rule("O9.5", "json.Marshal arguments expose MarshalJSON to encoding/json")
 	r.Rule("O9.7", "imported verdict: requests are isolated from one another (C13), so an answered request leaves the server able to answer the next")
 	r.Rule("O9.8", "no make / Grow / slice bound / index in the request path is sized by a request-controlled integer (Content-Length, numbers parsed from headers or the URL) without a lower- and an upper-bound test dominating it")
+	r.Rule("O9.9", "every body the request path writes is the result of encoding/json.Marshal or a constant document (an error body assembled by formatting is not valid JSON for every request, so it carries no parseable code)")
 	r.Rule("O9.6", "imported verdicts: prover wiring and circuits (C07 ⊇ C01–C03), parameter decoder (C16)")
 	r.Trusted = append(r.Trusted, "net/http: first WriteHeader wins, panics in handlers are recovered per connection", "encoding/json rejects ill-typed documents with an error", "groth16.Prove returns an error for an unsatisfied system")
 	r.NotDecided = append(r.NotDecided, "panics/hangs inside third-party code for arbitrary bodies", "validity of the returned proof (C07)")
@@ -180,6 +181,8 @@ func checkC09(p *core.Program, r *core.Report) {
 	// the decoded bytes are the whole body
 	r.Count("request documents decoded", checkWholeDocument(p, r, "O9.2", hu.Name, hfn))
 	r.Floor("request documents decoded", 1)
+	// O9.9
+	checkResponseBodiesAreJSON(p, r, hfn)
 	// O9.8
 	checkRequestSizedOps(p, r, []*ssa.Function{entryFn, hfn})
 	// O9.3
